@@ -194,17 +194,17 @@ compute_strides(struct ImageShape* shape)
         st[i] = st[i - 1] * dims[i - 1];
 }
 
+/// (Re)allocates an image buffer. The buffers are processed with 32-byte wide
+/// vector loads (see bin2), so they are 32-byte aligned and `nbytes` must be a
+/// multiple of 32.
 static void*
-checked_realloc(void* in, size_t nbytes)
+checked_aligned_realloc(void* in, size_t nbytes)
 {
-    void* out = realloc(in, nbytes);
-    EXPECT(out, "Allocation of %llu bytes failed.", nbytes);
-
-Finalize:
-    return out;
-Error:
     free(in);
-    goto Finalize;
+    void* out = aligned_alloc(32, nbytes);
+    EXPECT(out, "Allocation of %llu bytes failed.", nbytes);
+Error:
+    return out;
 }
 
 static void
@@ -421,9 +421,20 @@ simcam_set(struct Camera* camera, struct CameraProperties* settings)
         .y = shape->dims.height,
     };
 
-    size_t nbytes = aligned_bytes_of_image(shape);
-    CHECK(self->im.frame_data = checked_realloc(self->im.frame_data, nbytes));
-    CHECK(self->im.render_data = checked_realloc(self->im.render_data, nbytes));
+    // Frames are rendered at full (unbinned) resolution and binned in place,
+    // so the buffers must hold the full-resolution image, not the binned one
+    // that is reported. bin2 works on whole 32-byte blocks and may touch one
+    // block past the image: leave that much slack.
+    {
+        struct ImageShape full = { 0 };
+        uint32_t origin[2] = { 0, 0 };
+        compute_full_resolution_shape_and_offset(self, &full, origin);
+        const size_t nbytes = aligned_bytes_of_image(&full) + 64;
+        CHECK(self->im.frame_data =
+                checked_aligned_realloc(self->im.frame_data, nbytes));
+        CHECK(self->im.render_data =
+                checked_aligned_realloc(self->im.render_data, nbytes));
+    }
 
 Finalize:
     lock_release(&self->im.lock);
